@@ -219,7 +219,8 @@ def process_pyro_request(environ, path, parameters, start_response):
     object_name, method = matches.groups()
     if pyro_app.gateway_key:
         gateway_key = environ.get("HTTP_X_PYRO_GATEWAY_KEY", "") or parameters.get("$key", "")
-        gateway_key = gateway_key.encode("utf-8")
+        # a repeated $key parameter arrives as a list: that is never the key
+        gateway_key = gateway_key.encode("utf-8") if isinstance(gateway_key, str) else None
         if gateway_key != pyro_app.gateway_key:
             start_response('403 Forbidden', cors_response_header([('Content-Type', 'text/plain')], pyro_app.cors))
             return [b"403 Forbidden - incorrect gateway api key"]
